@@ -30,6 +30,9 @@ fn main() {
         None => Box::new(std::io::BufWriter::new(std::io::stdout())),
     };
     let mut st = stats::Stats::default();
+    if let Some(b) = arg(&args, "--bias") {
+        let _ = world::gen::BIAS.set(b);
+    }
     match mode.as_str() {
         "integer" => integer::run(seed, count, &mut out, &mut st),
         "vamm" => vamm_unit::run(seed, count, &mut out, &mut st),
